@@ -27,6 +27,8 @@ class InterruptableThread(threading.Thread):
         self.daemon = True
         self.result = None
         self.exc_info = (None, None, None)
+        # The thread that this one started through `timeout` and is waiting for
+        self.waiting_for = None
 
     def run(self):
         """
@@ -58,10 +60,10 @@ class InterruptableThread(threading.Thread):
         """
         Trigger a thread ending exception!
         """
-        if not self.is_alive():
-            # It ended on its own in the meantime; there is nothing to interrupt
-            return
-        for thread_id, thread in threading._active.items():
+        # A thread that ended on its own in the meantime is no longer listed, and
+        # there is nothing to interrupt. (Not decided with is_alive(): a join()
+        # that was itself interrupted leaves a running thread marked as stopped.)
+        for thread_id, thread in list(threading._active.items()):
             if thread is self:
                 InterruptableThread._async_raise(thread_id, exception)
                 return
@@ -72,6 +74,12 @@ class InterruptableThread(threading.Thread):
         """
         self.exc_info = sys.exc_info()
         self.raise_exception(SystemExit)
+        # A thread that is itself waiting for a function under a time limit only
+        # notices the interrupt when that wait ends; do not let the function it
+        # waits for run on until then.
+        inner = self.waiting_for
+        if inner is not None:
+            inner.terminate()
 
 
 def timeout(duration, func, *args, on_timeout=None, **kwargs):
@@ -89,17 +97,31 @@ def timeout(duration, func, *args, on_timeout=None, **kwargs):
         return func(*args, **kwargs)
 
     target_thread = InterruptableThread(func, args, kwargs)
+    current_thread = threading.current_thread()
+    if isinstance(current_thread, InterruptableThread):
+        current_thread.waiting_for = target_thread
     target_thread.start()
-    target_thread.join(duration)
-
-    timed_out = target_thread.is_alive()
-    if timed_out and on_timeout is not None and on_timeout() is False:
-        # Finished at the very last moment; let the thread wind up
+    interrupted = False
+    try:
         target_thread.join(duration)
+
         timed_out = target_thread.is_alive()
+        if timed_out and on_timeout is not None and on_timeout() is False:
+            # Finished at the very last moment; let the thread wind up
+            target_thread.join(duration)
+            timed_out = target_thread.is_alive()
+        if timed_out:
+            target_thread.terminate()
+            interrupted = True
+    except BaseException:
+        # This thread is itself being interrupted (it runs under a time limit
+        # of its own, e.g. a student file importing another one): the function
+        # must not be left running with nobody waiting for it
+        if not interrupted:
+            target_thread.terminate()
+        raise
 
     if timed_out:
-        target_thread.terminate()
         timeout_exception = TimeoutError('Your code took too long to run '
                                          '(it was given {} seconds); '
                                          'maybe you have an infinite loop?'.format(duration))
